@@ -164,11 +164,11 @@ def handle (args : List String) (impl : String) : String × String :=
         let r := Ruint.Gen.val_overflowing_pow (e + 1) bits (nlimbs bits) a e
         (toHex r.1 ++ " " ++ boolStr r.2, toHex sp.1 ++ " " ++ boolStr ov)
       | "cpow" =>
-        ((match checkedPow bits a e with | some v => "some " ++ toHex v | none => "none"),
+        ((match Ruint.Gen.val_checked_pow (e + 1) bits (nlimbs bits) a e with | some v => "some " ++ toHex v | none => "none"),
          if ov then "none" else "some " ++ toHex sp.1)
-      | "spow" => (toHex (saturatingPow bits a e), toHex (if ov then m - 1 else sp.1))
+      | "spow" => (toHex (Ruint.Gen.val_saturating_pow (e + 1) bits (nlimbs bits) a e), toHex (if ov then m - 1 else sp.1))
       | "wpow" => (toHex (Ruint.Gen.val_wrapping_pow (e + 1) bits (nlimbs bits) a e), toHex sp.1)
-      | _ => (toHex (Pow.pow bits a e), toHex sp.1)
+      | _ => (toHex (Ruint.Gen.val_pow (e + 1) bits (nlimbs bits) a e), toHex sp.1)
     | "log" | "clog" => handleLog op bits a e impl
     | "root" => handleRoot bits a e impl
     -- L1 operations used by the loop bodies: model = the value-level function the L2 models call
